@@ -63,8 +63,10 @@ func (p *procResult) last(kw string, v interface{}) bool {
 // expires.
 func (c *ctx) vnodeRun(args ...string) *procResult {
 	atomic.AddInt64(&c.procs, 1)
+	t0 := time.Now()
+	defer func() { c.phase(args[0], time.Since(t0)) }()
 	cmd := exec.Command(c.vnode, args...)
-	cmd.Env = append(os.Environ(), "GOMAXPROCS=4")
+	cmd.Env = os.Environ() // GOMAXPROCS as given by vcheck (16): fewer Ps make the application's spin-wait loops slower, not cheaper (measured)
 	cmd.SysProcAttr = &syscall.SysProcAttr{Setpgid: true}
 	stdout, _ := cmd.StdoutPipe()
 	var stderr bytes.Buffer
@@ -339,3 +341,24 @@ func (c *ctx) reexecRun(dir, scratch string, lifetimes []int64) (*reexecRec, *pr
 }
 
 func jsonUnmarshal(raw json.RawMessage, v interface{}) bool { return json.Unmarshal(raw, v) == nil }
+
+// phase accumulates the wall time of the subprocesses per vnode mode.
+func (c *ctx) phase(name string, d time.Duration) {
+	c.phaseMu.Lock()
+	defer c.phaseMu.Unlock()
+	if c.phaseN == nil {
+		c.phaseN, c.phaseT = map[string]int{}, map[string]time.Duration{}
+	}
+	c.phaseN[name]++
+	c.phaseT[name] += d
+}
+
+func (c *ctx) phaseReport() map[string]string {
+	c.phaseMu.Lock()
+	defer c.phaseMu.Unlock()
+	m := map[string]string{}
+	for k, n := range c.phaseN {
+		m[k] = fmt.Sprintf("%d runs, mean %.2fs", n, c.phaseT[k].Seconds()/float64(n))
+	}
+	return m
+}
